@@ -611,6 +611,21 @@ def invariant(w: World):
                     errs.append(("get_depth-relative", "relative depth differs from the chain"))
             if ok and x.xpath != xp:
                 errs.append(("xpath", f"calculated xpath {x.xpath!r} != {xp!r}"))
+            # the negative side: a node that is NOT on the chain (a node elsewhere, a twin of an ancestor, a stale or detached
+            # object) is no ancestor; told apart by whether it is content-equal to an actual ancestor (the known ==-confusion)
+            on_chain = {id(a) for a in anc} | {id(x)}
+            for y in nodes:
+                if id(y) in on_chain or not kids(y):
+                    continue
+                try:
+                    said = y.is_ancestor(x)
+                except Exception:  # noqa: BLE001
+                    continue
+                if said:
+                    like = any(type(a) is type(y) and a.content_id == y.content_id for a in anc)
+                    errs.append(("non-ancestor-reported" + ("-twin-of-ancestor" if like else ""),
+                                 "is_ancestor is True for a node that is not on the chain of actual positions"))
+                    break
     return list(dict.fromkeys(errs))
 
 
